@@ -1,8 +1,18 @@
 package main
 
-// Static obligations: checks implemented directly over go/types and go/ssa
-// (mechanically derived expectations, store sweeps). Each returns named
-// obligations with status "unsat" (holds) or "fail".
+// Static obligations: frame conditions checked store by store over go/ssa
+// (the `assigns` clause of every function reachable from the observers is
+// "nothing but the whitelisted caches and ID fields"), and lock dominance.
+
+import (
+	"fmt"
+	"go/token"
+	"go/types"
+	"sort"
+	"strings"
+
+	"golang.org/x/tools/go/ssa"
+)
 
 type staticResult struct {
 	Name    string
@@ -16,6 +26,431 @@ type staticResult struct {
 
 func (e *Engine) runStatic(name, prop string) ([]staticResult, []string) {
 	switch name {
+	case "observer-frames":
+		return e.observerFrames(prop)
+	case "lock-dominates":
+		return e.lockDominates(prop)
 	}
 	return nil, []string{"unknown static check " + name}
+}
+
+func inRepoPkg(p *types.Package) bool {
+	return p != nil && (p.Path() == modPath || strings.HasPrefix(p.Path(), modPath+"/"))
+}
+
+func fnInRepo(fn *ssa.Function) bool {
+	for fn.Parent() != nil {
+		fn = fn.Parent()
+	}
+	if fn.Pkg != nil {
+		return inRepoPkg(fn.Pkg.Pkg)
+	}
+	if fn.Object() != nil {
+		return inRepoPkg(fn.Object().Pkg())
+	}
+	// synthetic wrappers of repo methods
+	if recv := fn.Signature.Recv(); recv != nil {
+		t := recv.Type()
+		if p, ok := t.(*types.Pointer); ok {
+			t = p.Elem()
+		}
+		if n, ok := t.(*types.Named); ok {
+			return inRepoPkg(n.Obj().Pkg())
+		}
+	}
+	return false
+}
+
+var observerNames = map[string]bool{"String": true, "LLString": true, "Ident": true, "Name": true, "ID": true, "IsUnnamed": true,
+	"Type": true, "Operands": true, "Succs": true, "Sig": true, "WriteTo": true, "MDAttachments": true, "Equal": true, "IsDistinct": true}
+
+// whitelisted cache / ID fields that observers may write
+var cacheFields = map[string]bool{"Typ": true, "Successors": true, "LocalID": true, "GlobalID": true}
+
+// repoMethodsNamed returns every method of a /repo type with the given name
+// that could be the target of a dynamic call with this signature.
+func (e *Engine) dynamicTargets(cc *ssa.CallCommon) []*ssa.Function {
+	var out []*ssa.Function
+	iface, ok := cc.Value.Type().Underlying().(*types.Interface)
+	if !ok {
+		return nil
+	}
+	for _, p := range e.prog.AllPackages() {
+		if !inRepoPkg(p.Pkg) {
+			continue
+		}
+		for _, m := range p.Members {
+			tn, ok := m.(*ssa.Type)
+			if !ok {
+				continue
+			}
+			for _, T := range []types.Type{tn.Type(), types.NewPointer(tn.Type())} {
+				if _, isI := T.Underlying().(*types.Interface); isI {
+					continue
+				}
+				if !types.Implements(T, iface) {
+					continue
+				}
+				sel := e.prog.MethodSets.MethodSet(T).Lookup(cc.Method.Pkg(), cc.Method.Name())
+				if sel == nil {
+					continue
+				}
+				if fn := e.prog.MethodValue(sel); fn != nil {
+					out = append(out, fn)
+				}
+			}
+		}
+	}
+	return out
+}
+
+func (e *Engine) callees(fn *ssa.Function) []*ssa.Function {
+	var out []*ssa.Function
+	for _, b := range fn.Blocks {
+		for _, ins := range b.Instrs {
+			switch x := ins.(type) {
+			case ssa.CallInstruction:
+				cc := x.Common()
+				if cc.IsInvoke() {
+					out = append(out, e.dynamicTargets(cc)...)
+					continue
+				}
+				switch c := cc.Value.(type) {
+				case *ssa.Function:
+					out = append(out, c)
+				case *ssa.MakeClosure:
+					out = append(out, c.Fn.(*ssa.Function))
+				}
+			case *ssa.MakeClosure:
+				out = append(out, x.Fn.(*ssa.Function))
+			}
+		}
+	}
+	out = append(out, fn.AnonFuncs...)
+	return out
+}
+
+// origin classifies where a reference-like value comes from: true = memory
+// allocated in this activation (or nil/constant), false = possibly shared.
+func freshOrigin(v ssa.Value, seen map[ssa.Value]bool) bool {
+	if seen[v] {
+		return true
+	}
+	seen[v] = true
+	switch x := v.(type) {
+	case *ssa.Alloc, *ssa.MakeSlice, *ssa.MakeMap, *ssa.MakeClosure, *ssa.Const, *ssa.MakeInterface:
+		if mi, ok := x.(*ssa.MakeInterface); ok {
+			return freshOrigin(mi.X, seen)
+		}
+		return true
+	case *ssa.Slice:
+		return freshOrigin(x.X, seen)
+	case *ssa.ChangeType:
+		return freshOrigin(x.X, seen)
+	case *ssa.Convert:
+		return true // string <-> []byte conversions copy
+	case *ssa.Phi:
+		for _, e := range x.Edges {
+			if !freshOrigin(e, seen) {
+				return false
+			}
+		}
+		return true
+	case *ssa.FieldAddr:
+		return freshOrigin(x.X, seen)
+	case *ssa.IndexAddr:
+		return freshOrigin(x.X, seen)
+	case *ssa.Call:
+		if b, ok := x.Call.Value.(*ssa.Builtin); ok && b.Name() == "append" {
+			return freshOrigin(x.Call.Args[0], seen)
+		}
+		if f, ok := x.Call.Value.(*ssa.Function); ok {
+			// constructors of fresh values
+			full := f.String()
+			if strings.HasPrefix(f.Name(), "New") || full == "strings.Split" || full == "strings.Fields" || full == "fmt.Sprintf" {
+				return true
+			}
+		}
+		return false
+	case *ssa.UnOp:
+		if x.Op != token.MUL {
+			return false
+		}
+		// load from a local cell: all values ever stored to the cell must be fresh
+		a, ok := x.X.(*ssa.Alloc)
+		if !ok {
+			return false
+		}
+		refs := a.Referrers()
+		if refs == nil {
+			return false
+		}
+		for _, r := range *refs {
+			if st, ok := r.(*ssa.Store); ok && st.Addr == a {
+				if !freshOrigin(st.Val, seen) {
+					return false
+				}
+			}
+		}
+		return true
+	}
+	return false
+}
+
+type frameViolation struct {
+	fn   *ssa.Function
+	pos  token.Pos
+	what string
+}
+
+func (e *Engine) frameViolations(fn *ssa.Function) []frameViolation {
+	var out []frameViolation
+	add := func(p token.Pos, f string, a ...interface{}) {
+		out = append(out, frameViolation{fn, p, fmt.Sprintf(f, a...)})
+	}
+	for _, b := range fn.Blocks {
+		for _, ins := range b.Instrs {
+			switch x := ins.(type) {
+			case *ssa.Store:
+				switch a := x.Addr.(type) {
+				case *ssa.Alloc:
+					// local variable or fresh cell
+				case *ssa.FieldAddr:
+					if freshOrigin(a.X, map[ssa.Value]bool{}) {
+						continue
+					}
+					pt := a.X.Type().Underlying().(*types.Pointer)
+					st := pt.Elem().Underlying().(*types.Struct)
+					fname := st.Field(a.Field).Name()
+					if cacheFields[fname] {
+						continue
+					}
+					// initialisation of the object just stored into a cache field (x.Typ.AddrSpace = ...)
+					if ld, ok := a.X.(*ssa.UnOp); ok && ld.Op == token.MUL {
+						if fa, ok := ld.X.(*ssa.FieldAddr); ok {
+							bst := fa.X.Type().Underlying().(*types.Pointer).Elem().Underlying().(*types.Struct)
+							if cacheFields[bst.Field(fa.Field).Name()] {
+								continue
+							}
+						}
+					}
+					// fmtWriter is private to Module.WriteTo (allocated there, never stored or returned); its
+					// methods are under contract for property C19
+					if n, ok := pt.Elem().(*types.Named); ok && n.Obj().Name() == "fmtWriter" {
+						continue
+					}
+					// field of a local struct value reached through nested FieldAddr on an Alloc is fresh (handled above)
+					add(x.Pos(), "writes field %s of a shared %s", fname, pt.Elem())
+				case *ssa.IndexAddr:
+					if freshOrigin(a.X, map[ssa.Value]bool{}) {
+						continue
+					}
+					add(x.Pos(), "writes an element of a shared %s", a.X.Type())
+				case *ssa.Global:
+					add(x.Pos(), "writes package variable %s", a.Name())
+				case *ssa.FreeVar:
+					// captured variable of the enclosing function: a local of the parent
+				case *ssa.Parameter:
+					// store through a pointer parameter: allowed for the ID setters only
+					if pt, ok := a.Type().Underlying().(*types.Pointer); ok {
+						if n, ok := pt.Elem().(*types.Named); ok && (n.Obj().Name() == "MetadataID") {
+							continue
+						}
+					}
+					add(x.Pos(), "writes through pointer parameter %s", a.Name())
+				default:
+					if freshOrigin(x.Addr, map[ssa.Value]bool{}) {
+						continue
+					}
+					add(x.Pos(), "writes through %s", x.Addr.Type())
+				}
+			case *ssa.MapUpdate:
+				if !freshOrigin(x.Map, map[ssa.Value]bool{}) {
+					add(x.Pos(), "updates a shared map")
+				}
+			case *ssa.Call:
+				if bi, ok := x.Call.Value.(*ssa.Builtin); ok {
+					switch bi.Name() {
+					case "copy", "delete":
+						if !freshOrigin(x.Call.Args[0], map[ssa.Value]bool{}) {
+							add(x.Pos(), "%s on shared memory", bi.Name())
+						}
+					}
+				}
+			case *ssa.Go:
+				add(x.Pos(), "starts a goroutine")
+			case *ssa.Send:
+				add(x.Pos(), "channel send")
+			}
+		}
+	}
+	return out
+}
+
+// observerFrames: every function reachable from an observer method writes only
+// fresh memory, the whitelisted caches (Typ, Successors) and ID fields.
+func (e *Engine) observerFrames(prop string) ([]staticResult, []string) {
+	var roots []*ssa.Function
+	for _, p := range e.prog.AllPackages() {
+		if !inRepoPkg(p.Pkg) || !(strings.Contains(p.Pkg.Path(), "/ir")) {
+			continue
+		}
+		for _, m := range p.Members {
+			tn, ok := m.(*ssa.Type)
+			if !ok {
+				continue
+			}
+			for _, T := range []types.Type{tn.Type(), types.NewPointer(tn.Type())} {
+				ms := e.prog.MethodSets.MethodSet(T)
+				for i := 0; i < ms.Len(); i++ {
+					sel := ms.At(i)
+					if !observerNames[sel.Obj().Name()] {
+						continue
+					}
+					if fn := e.prog.MethodValue(sel); fn != nil && fnInRepo(fn) {
+						roots = append(roots, fn)
+					}
+				}
+			}
+		}
+	}
+	if len(roots) == 0 {
+		return nil, []string{"observer-frames: no observer methods found (packages not loaded?)"}
+	}
+	seen := map[*ssa.Function]bool{}
+	var work []*ssa.Function
+	for _, r := range roots {
+		if !seen[r] {
+			seen[r] = true
+			work = append(work, r)
+		}
+	}
+	for len(work) > 0 {
+		f := work[0]
+		work = work[1:]
+		for _, c := range e.callees(f) {
+			if c == nil || seen[c] || !fnInRepo(c) {
+				continue
+			}
+			seen[c] = true
+			work = append(work, c)
+		}
+	}
+	var fns []*ssa.Function
+	for f := range seen {
+		if f.Blocks != nil && f.Synthetic == "" {
+			fns = append(fns, f)
+		}
+	}
+	sort.Slice(fns, func(i, j int) bool { return fns[i].String() < fns[j].String() })
+	var res []staticResult
+	for _, f := range fns {
+		name := strings.Replace(f.String(), modPath+"/", "", -1)
+		// mutators reachable only as part of (re)numbering are governed by their own contracts
+		if f.Name() == "SetID" || f.Name() == "SetName" {
+			continue
+		}
+		vs := e.frameViolations(f)
+		r := staticResult{Name: "frame:" + name, Func: f.String(), Kind: "frame", Pos: posOf(e, f.Pos()), Status: "unsat",
+			Detail: "every heap store of " + name + " targets memory allocated in the call, a cache field (Typ, Successors) or an ID field"}
+		if len(vs) > 0 {
+			r.Status = "fail"
+			var ds []string
+			for _, v := range vs {
+				ds = append(ds, fmt.Sprintf("%s: %s", posOf(e, v.pos), v.what))
+			}
+			r.Detail = strings.Join(ds, "; ")
+			r.Pos = posOf(e, vs[0].pos)
+		}
+		res = append(res, r)
+	}
+	return res, nil
+}
+
+func posOf(e *Engine, p token.Pos) string {
+	if !p.IsValid() {
+		return ""
+	}
+	ps := e.fset.Position(p)
+	return fmt.Sprintf("%s:%d", strings.TrimPrefix(ps.Filename, e.repo+"/"), ps.Line)
+}
+
+// lockDominates: in the three ID-assignment functions, the mutex is taken before
+// any ID is read or written and released by a deferred Unlock.
+func (e *Engine) lockDominates(prop string) ([]staticResult, []string) {
+	targets := []struct{ pkg, key string }{{modPath + "/ir", "(*Module).AssignGlobalIDs"}, {modPath + "/ir", "(*Module).AssignMetadataIDs"}, {modPath + "/ir", "(*Func).AssignIDs"}}
+	var res []staticResult
+	var errs []string
+	for _, t := range targets {
+		pkg := e.pkgs[t.pkg]
+		if pkg == nil {
+			errs = append(errs, "lock-dominates: package "+t.pkg+" not loaded")
+			continue
+		}
+		fn, err := e.lookupFunc(pkg, t.key)
+		if err != nil {
+			errs = append(errs, "lock-dominates: contract-stale "+t.key+": "+err.Error())
+			continue
+		}
+		r := staticResult{Name: "lock:" + t.key, Func: fn.String(), Kind: "lock-dominance", Pos: posOf(e, fn.Pos()), Status: "unsat",
+			Detail: "mu.Lock() is the first effect of " + t.key + ", dominates every call and heap access, and mu.Unlock() is deferred right after it"}
+		var lock *ssa.Call
+		var lockBlock *ssa.BasicBlock
+		lockIdx := -1
+		deferOK := false
+		var problems []string
+		entry := fn.Blocks[0]
+		for i, ins := range entry.Instrs {
+			if c, ok := ins.(*ssa.Call); ok {
+				if f, ok := c.Call.Value.(*ssa.Function); ok && f.String() == "(*sync.Mutex).Lock" {
+					lock, lockBlock, lockIdx = c, entry, i
+					break
+				}
+				if b, ok := c.Call.Value.(*ssa.Builtin); ok && strings.HasPrefix(b.Name(), "ssa:") {
+					continue
+				}
+				problems = append(problems, fmt.Sprintf("%s: call before the lock is taken", posOf(e, c.Pos())))
+			}
+			if u, ok := ins.(*ssa.UnOp); ok && u.Op == token.MUL {
+				if _, isAlloc := u.X.(*ssa.Alloc); !isAlloc {
+					problems = append(problems, fmt.Sprintf("%s: heap read before the lock is taken", posOf(e, u.Pos())))
+				}
+			}
+		}
+		if lock == nil {
+			problems = append(problems, "mu.Lock() is not called in the entry block")
+		} else {
+			// the next call-like instruction must be the deferred Unlock on the same mutex
+			for _, ins := range lockBlock.Instrs[lockIdx+1:] {
+				if d, ok := ins.(*ssa.Defer); ok {
+					if f, ok := d.Call.Value.(*ssa.Function); ok && f.String() == "(*sync.Mutex).Unlock" {
+						deferOK = true
+					}
+					break
+				}
+				if _, ok := ins.(ssa.CallInstruction); ok {
+					break
+				}
+			}
+			if !deferOK {
+				problems = append(problems, "mu.Unlock() is not deferred immediately after mu.Lock()")
+			}
+			// no explicit Unlock elsewhere
+			for _, b := range fn.Blocks {
+				for _, ins := range b.Instrs {
+					if c, ok := ins.(*ssa.Call); ok {
+						if f, ok := c.Call.Value.(*ssa.Function); ok && f.String() == "(*sync.Mutex).Unlock" {
+							problems = append(problems, fmt.Sprintf("%s: explicit Unlock inside the function", posOf(e, c.Pos())))
+						}
+					}
+				}
+			}
+		}
+		if len(problems) > 0 {
+			r.Status = "fail"
+			r.Detail = strings.Join(problems, "; ")
+		}
+		res = append(res, r)
+	}
+	return res, errs
 }
